@@ -116,6 +116,8 @@ def zero_edge(cond, from_div):
 
 
 def analyse(fn, pidx, kind, family, prop, res):
+    defined0 = kind.endswith("0")
+    kind = kind.rstrip("0")
     blocks = sa.blocks_by_id(fn)
     pid, derived, from_div = divisor_exprs(fn, pidx, kind)
     dom, preds = dominators(fn)
@@ -166,6 +168,30 @@ def analyse(fn, pidx, kind, family, prop, res):
     name = fn["name"]
     F = res["findings"]
     res["stats"]["dangerous_ops"] += len(danger)
+    if defined0:
+        # the manual defines the result for a zero divisor: no trap, but nothing division-like may see the divisor before a zero test;
+        # accepted: the operation is dominated by the non-zero successor of a divisor test
+        nz = set()
+        for b in fn["blocks"]:
+            t = b.get("term")
+            if t and t.get("cond") and len(b["succs"]) == 2:
+                ze = zero_edge(sa.effective_cond(t), from_div)
+                if ze is not None:
+                    s_ = b["succs"][1 - ze]
+                    if isinstance(s_, int) and preds.get(s_) == {b["id"]}:
+                        nz.add(s_)
+        res["stats"]["defined_at_zero"] += 1
+        bad = [(bid, ln, what) for bid, ln, what in danger if bid in dom and not (nz & dom[bid])]
+        for bid, ln, what in bad:
+            F.append(Finding(prop, "R-DIVZERO", fn["file"], ln, name, "unguarded:%s" % what,
+                             "%s at line %d sees the divisor on a path that has not tested it for zero; the manual defines %s for a zero divisor, "
+                             "so this path must return the defined answer instead of dividing" % (what, ln, name.replace("__g", ""))))
+        if not danger and not deleg and not nz:
+            F.append(Finding(prop, "R-DIVZERO", fn["file"], fn["line"], name, "no-guard",
+                             "%s neither tests its divisor for zero nor hands it to a function of the family" % name))
+        res["samples"].append(dict(rule="R-DIVZERO", function=name, file=relpath(fn["file"]), divisor=fn["params"][pidx]["name"],
+                                   verdict="zero divisor defined: %d division-like operations behind the non-zero edge" % len(danger)))
+        return
     if guards:
         res["stats"]["guarded_here"] += 1
         bad = [(bid, ln, what) for bid, ln, what in danger if not any(g in dom[bid] and g != bid for g in guards)]
